@@ -481,7 +481,9 @@ func (ev *Evaluator) evalPath(p *jast.Path, in Value, env *Env) (Value, *Err) {
 		case *jast.Pred:
 			return anchored(s.X, false)
 		case *jast.Sort:
-			return anchored(s.X, false)
+			// an order-by sorts the whole sequence selected by the steps to
+			// its left (they are inside the node): it is evaluated once
+			return true
 		case *jast.Path:
 			// the sequence of an order-by can be a path that starts with a variable
 			return !outer && len(s.Steps) > 0 && anchored(s.Steps[0], false)
